@@ -232,6 +232,21 @@ def check(ctx):
                                      replay={"cell": sc["name"], "lattice": sc["lattice"].tolist(), "positions": sc["positions"].tolist(), "numbers": [int(x) for x in sc["numbers"]], "order": order, "cutoff": cexact}, has_input=True)
         except (IndexError, ValueError):
             pass
+        # the same request spelled with numpy integer keys (hash-equal to the built-in ints): same basis
+        try:
+            cnp = bounds[0]
+            o_int = Symfc(at, cutoff={2: cnp, 3: cnp}).compute_basis_set(orders=[2, 3])
+            o_np = Symfc(at, cutoff={np.int64(2): cnp, np.intc(3): cnp}).compute_basis_set(orders=[2, 3])
+            ctx.case({"cell": sc["name"], "cutoff_keys": "numpy integers", "cutoff": cnp}, nontrivial=True)
+            ctx.count("api-cutoff-key-types")
+            for k in (2, 3):
+                Pa, na = span_proj(o_int.basis_set[k])
+                Pb, nb_ = span_proj(o_np.basis_set[k])
+                if na != nb_ or not same_span(Pa, Pb)[0]:
+                    ctx.fail("oracle", "C07/oracle/cutoff-dict", f"{sc['name']}: cutoff {{np.int64(2): c, np.intc(3): c}} gives another order-{k} basis ({nb_} vectors) than {{2: c, 3: c}} ({na} vectors), c = {cnp:.4f}",
+                             replay={"cell": sc["name"], "lattice": sc["lattice"].tolist(), "positions": sc["positions"].tolist(), "numbers": [int(x) for x in sc["numbers"]], "cutoff": cnp, "keys": "numpy integers", "order": k}, has_input=True)
+        except (IndexError, ValueError):
+            pass
         # per-order dictionary: a cutoff given only for order 3 must not affect order 2
         c3 = bounds[0]
         try:
